@@ -10,14 +10,14 @@ claimed = {
  "C05": ("path exploration with panic edges, deferred calls and recover modelling; argument provenance of the panic handler", "5.C05"),
  "C06": ("wait-group typestate over publisher and goroutine paths (count before spawn, Done on every exit); Shutdown select-arm typestate", "5.C06"),
  "C07": ("lock-held-at-invocation typestate over all paths incl. panic edges; necessary-condition check for publisher-side sequencing", "5.C07"),
- "C09": ("must-pass-through typestate on PublishContext (persist call ahead of snapshot) + exhaustive path enumeration of the persist function with predicates + provenance of the record fields + lock-region check", "5.C09"),
+ "C09": ("must-pass-through typestate on PublishContext (persist call ahead of snapshot) + exhaustive path enumeration of the persist function with predicates + provenance of the record fields + lock-region check + no request-scoped state cached in store fields", "5.C09"),
  "C13": ("exhaustive path enumeration of the loop-free persist function (predicate-classified path classes) + argument provenance + containment checks", "5.C13"),
  "C15": ("value provenance (E-FLOW) from every name sink to the name functions + two-path specification of EventType + abstract evaluation of the typed name helper on the shapes of T (interface / TypeNamer / pointer) + types.Implements table + no in-place rewrite of stored events", "5.C15"),
  "C16": ("path enumeration of register (guards dominate insertion) + lock-region atomicity + who-may-write of the graph + structural recursion check + loop termination certificate", "5.C16"),
  "C17": ("return-value provenance of apply + dominance of err==nil over uses of upcast results + shape check of the typed wrapper", "5.C17"),
  "C10": ("E-TABLE conformance (types.Implements) + provenance and path rule for Read's next offset (it is the last returned event's) + format analysis of offsets + DSN provenance + SQL token tables + append-only ownership + sibling agreement by abstract evaluation of the read predicate + fresh decode targets in read loops + error-propagation path rule over the store functions", "5.C10"),
  "C11": ("typestate on row loops (Err after Next), path exploration of the range-over-func yield body, loop-exit classification of the paged replay, iterator-protocol typestate with inlining, error-propagation path rule (a found error is never returned as nil), next-offset path rule, who-may-call reachability", "5.C11"),
- "C12": ("dominance / reachability checks on SubscribeWithReplay, provenance of saved offsets (E-FLOW), handle-before-save ordering, hand-off mechanism check", "5.C12"),
+ "C12": ("dominance / reachability checks on SubscribeWithReplay, provenance of saved offsets (E-FLOW), handle-before-save ordering, hand-off mechanism check, field-sensitive source tracing of the SQLite read start position", "5.C12"),
  "C14": ("acknowledge-after-Exec typestate, SQL/pragma token tables, transaction pairing over all paths, who-may-call for file operations", "5.C14"),
  "C18": ("operation/control tables decided by evaluating the appliers for every enum constant (and an unknown one), all-path exploration of Apply with the collection applier inlined, string-expression normal form of the key function, fresh decode targets, lock sets", "5.C18"),
  "C19": ("all-path exploration of Apply (decode before mutate), struct-tag and constant tables, instruction-class scan of Apply's call tree, provenance of constructor fields", "5.C19"),
